@@ -1,9 +1,15 @@
 #!/bin/bash
-# usage: seed_test.sh Cxx_v Cyy [Czz...]  -- apply the seed to /repo, run the given checks, revert. Prints one line per check.
+# usage: seed_test.sh Cxx_v Cyy [Czz...]
+# Applies the seed to a scratch worktree of /repo (never to /repo itself), runs the given checks against it
+# (PY_TDGL_REPO), removes the worktree.  Evidence files are restored afterwards.
 n=$1; shift
-cd /repo && git apply /verif/seeded/$n/patch.diff || { echo "APPLY FAILED $n"; exit 2; }
+wt=/tmp/seedtest_$$
+git -C /repo worktree add --detach -q $wt HEAD || exit 2
+git -C $wt apply /verif/seeded/$n/patch.diff || { echo "APPLY FAILED $n"; git -C /repo worktree remove --force $wt; exit 2; }
+mkdir -p /tmp/evid_bak_$$ && cp -a /verif/evidence/. /tmp/evid_bak_$$/ 2>/dev/null
 for c in "$@"; do
-  out=$(cd /verif && ./check $c 2>&1 | grep -E "^VIOLATION|^OK|^KNOWN" | head -3 | tr '\n' ' ')
+  out=$(cd /verif && PY_TDGL_REPO=$wt ./check $c 2>&1 | grep -E "^VIOLATION|^OK|^KNOWN" | head -3 | tr '\n' ' ')
   echo "$n $c => $out"
 done
-cd /repo && git checkout -- . && git status --short | head -3
+cp -a /tmp/evid_bak_$$/. /verif/evidence/ 2>/dev/null; rm -rf /tmp/evid_bak_$$
+git -C /repo worktree remove --force $wt; git -C /repo worktree prune
